@@ -284,7 +284,15 @@ func LiveCase(c *core.Case, prop string) {
 		powers[i] = 20 + 10*int64(r.Intn(3))
 	}
 	al := NewAlarms()
-	net, res, err := RunLive(LiveOpts{N: n, Powers: powers, Heights: uint64(6 + r.Intn(12)), MaxWall: 120 * time.Second, Fuzz: false}, al)
+	// a third of the clusters run with one validator down and equal powers: every round needs all the others
+	down := -1
+	if r.Intn(3) == 0 {
+		n = 4
+		powers = []int64{20, 20, 20, 20}
+		down = r.Intn(4)
+		run.Count("live_runs_with_one_validator_down", 1)
+	}
+	net, res, err := RunLive(LiveOpts{N: n, Powers: powers, Heights: uint64(6 + r.Intn(12)), MaxWall: 120 * time.Second, Fuzz: false, Down: down}, al)
 	if net != nil {
 		defer net.Close()
 	}
@@ -305,6 +313,9 @@ func LiveCase(c *core.Case, prop string) {
 	}
 	if prop == "C04" && len(res.Dead) > 0 {
 		c.Violation("live:consensus-loop-terminated", fmt.Sprintf("consensus routine ended in a live cluster of correct nodes: %v", res.Dead), map[string]interface{}{"validators": n, "powers": powers})
+	}
+	if prop == "C04" && res.Deadlock != "" {
+		c.Violation("live:deadlock", "live cluster of correct, connected nodes: "+res.Deadlock, map[string]interface{}{"validators": n, "powers": powers, "down": down})
 	}
 	if !res.Reached {
 		run.Count("live_runs_slow_not_judged", 1) // speed is never a verdict
